@@ -64,6 +64,10 @@ INIT_MENU_EXTRA = [
     ("from-a-_p", "from .a import _p"), ("wild-a-all*", "from . import a\nfrom .a import *\n__all__ = [*a.__all__]"), ("from-b-x", "from .b import x"), ("val-x-then-wild-a", "x = V('pkg:x')\nfrom .a import *"),
     ("wild-a-then-val-x", "from .a import *\nx = V('pkg:x')"), ("all+=a", "from . import a\n__all__ = ['x']\n__all__ += a.__all__\nx = V('pkg:x')"),
 ]
+# U: upward imports. Module a imports from its PARENT package, whose __init__ imports from b only (graph a -> init -> b, still acyclic)
+UP_MENU = [("wild-parent", "from pkg import *"), ("wild-dot", "from . import *"), ("from-parent-x", "from pkg import x"), ("from-dot-y", "from . import y"), ("from-parent-x-as-y", "from pkg import x as y")]
+UP_INITS = [("up:wild-b", "from .b import *"), ("up:from-b-x", "from .b import x"), ("up:def-x", "def x(): ..."), ("up:val-x-all", "x = V('pkg:x')\ny = V('pkg:y')\n__all__ = ['x']"),
+            ("up:wild-b-all-y", "from .b import *\n__all__ = ['y']"), ("up:wild-b-then-def-x", "from .b import *\ndef x(): ..."), ("up:def-x-then-wild-b", "def x(): ...\nfrom .b import *")]
 _MAXA = {"quick": 2, "thorough": 3}
 
 
@@ -88,6 +92,19 @@ def all_cases(tier):
             for bv in B_VARIANTS:
                 for init in inits:
                     yield (sel, bv, init[0])
+    yield from _cases_up(tier)
+
+
+def _cases_up(tier):
+    up = [m[0] for m in UP_MENU]
+    other = [m[0] for m in LOCAL + ALLS]
+    sels = [(u,) for u in up] + [(u, o) for u in up for o in other] + [(o, u) for u in up for o in other] + [(u1, u2) for u1 in up for u2 in up if u1 != u2]
+    if tier == "thorough":
+        sels += [(o1, u, o2) for u in up for o1 in other for o2 in other if o1 != o2]
+    for sel in sels:
+        for bv in B_VARIANTS:
+            for init in UP_INITS:
+                yield (sel, bv, init[0])
 
 
 def _plausible(sel):
@@ -117,11 +134,11 @@ def _text(labels, modname, menu):
 
 def files_for(case):
     sel, bv, init = case
-    inits = dict(INIT_MENU + INIT_MENU_EXTRA)
+    inits = dict(INIT_MENU + INIT_MENU_EXTRA + UP_INITS)
     return {
         "vmod.py": "class V:\n    def __init__(self, origin):\n        self.origin = origin\n",
         "pkg/__init__.py": PRE + inits[init] + "\n",
-        "pkg/a.py": _text(sel, "pkg.a", A_MENU),
+        "pkg/a.py": _text(sel, "pkg.a", A_MENU + UP_MENU),
         "pkg/b.py": _text(B_VARIANTS[bv], "pkg.b", A_MENU),
     }
 
@@ -223,8 +240,13 @@ def run_case(griffe, acc, case):
         has_import = any(s.startswith(("wild", "from", "import", "abs")) for s in case[0]) or case[2] != "none"
         acc.case(cd, outcome="imported", nontrivial=has_import)
         acc.observe(got)
-        for mod in ("pkg.b", "pkg.a", "pkg"):
+        for mod in (("pkg.b", "pkg", "pkg.a") if case[2].startswith("up:") else ("pkg.b", "pkg.a", "pkg")):
             (ens, eall), (gns, gall) = exp[mod], got[mod]
+            if case[2].startswith("up:") and mod == "pkg.a":
+                # a star import of the parent also copies the sub-module attributes that happen to be bound on the package at that moment
+                # (an artefact of import order, here of the harness importing pkg.b first): module-valued names are not judged
+                ens = {k: v for k, v in ens.items() if v not in ("pkg.a", "pkg.b", "pkg")}
+                gns = {k: v for k, v in gns.items() if v not in ("pkg.a", "pkg.b", "pkg")}
             # a problem in a module is usually inherited by its importers: report the deepest module only
             bad = False
             for n in sorted(set(ens) ^ set(gns)):
